@@ -497,40 +497,77 @@ theorem foldl_gmStep_seen (nc : NcFile) (coords : List Entry) (danVars : List St
       · exact Or.inr ⟨g, List.mem_cons_self, h⟩
     · exact Or.inr ⟨g', List.mem_cons_of_mem _ hg', h⟩
 
+omit hwf hg in
+theorem gmStep_used (nc : NcFile) (coords : List Entry) (danVars : List String) (st : GMSt) (g : String × List String) :
+    ∀ n ∈ (gmStep nc coords danVars st g).used, n ∈ st.used ∨ n = g.1 := by
+  intro n hn
+  unfold gmStep at hn
+  split at hn
+  · exact Or.inl hn
+  · split at hn
+    · exact Or.inl hn
+    · simp only at hn
+      split at hn
+      · exact Or.inl hn
+      · split at hn
+        · exact Or.inl hn
+        · simp only [List.mem_append, List.mem_singleton] at hn; exact hn
+
+omit hwf hg in
+theorem foldl_gmStep_used (nc : NcFile) (coords : List Entry) (danVars : List String) (l : List (String × List String)) (st : GMSt) :
+    ∀ n ∈ (l.foldl (gmStep nc coords danVars) st).used, n ∈ st.used ∨ ∃ g ∈ l, n = g.1 := by
+  induction l generalizing st with
+  | nil => intro n hn; exact Or.inl hn
+  | cons g gs ih =>
+    intro n hn
+    rw [List.foldl_cons] at hn
+    rcases ih _ n hn with h | ⟨g', hg', h⟩
+    · rcases gmStep_used nc coords danVars st g n h with h | h
+      · exact Or.inl h
+      · exact Or.inr ⟨g, List.mem_cons_self, h⟩
+    · exact Or.inr ⟨g', List.mem_cons_of_mem _ hg', h⟩
+
 /-- What a variable of the file, taken as a data variable, references through `formula_terms` and
 `grid_mapping` attributes are metadata variables. -/
 theorem refsB_meta (w : NcVar) (cons : List Entry) :
     ∀ r ∈ (readB (wfFile o f names) w cons).referenced, IsMetaName f names r := by
+  -- the variables named by the `grid_mapping` attribute
+  have hgmmeta : ∀ g ∈ ((wfFile o f names).gridMapping.lookup w.name).getD [], IsMetaName f names g.1 := by
+    intro g hgm
+    cases hl : (wfFile o f names).gridMapping.lookup w.name with
+    | none => rw [hl] at hgm; cases hgm
+    | some l =>
+      rw [hl] at hgm
+      simp only [Option.getD_some] at hgm
+      have hmem : (w.name, l) ∈ gmTable f names := mem_of_lookup hl
+      unfold gmTable at hmem
+      split at hmem
+      · cases hmem
+      · simp only [List.mem_singleton] at hmem
+        injection hmem with _ hl'
+        rw [hl'] at hgm
+        unfold gmAttr at hgm
+        split at hgm
+        · cases hgm
+        · rename_i g0 hg0
+          simp only [List.mem_singleton] at hgm
+          rw [hgm]
+          right; right; exact ⟨g0, by rw [hg0]; exact List.mem_cons_self, rfl⟩
+        · obtain ⟨g0, hg0, rfl⟩ := List.mem_map.mp hgm
+          right; right; exact ⟨g0, hg0, rfl⟩
   intro r hr
   unfold readB at hr
   simp only [List.mem_append, List.mem_flatMap] at hr
-  rcases hr with ⟨d, hd, hr⟩ | hr
+  rcases hr with (⟨d, hd, hr⟩ | hr) | hr
   · obtain ⟨x, hx, hdx⟩ := hd
     obtain ⟨c, _, hc⟩ := List.mem_filterMap.mp hx
     exact readFT_refs_meta hwf hg w c hc d hdx r hr
   · rcases foldl_gmStep_seen _ _ _ _ _ r hr with h | ⟨g, hgm, rfl⟩
     · cases h
-    · cases hl : (wfFile o f names).gridMapping.lookup w.name with
-      | none => rw [hl] at hgm; cases hgm
-      | some l =>
-        rw [hl] at hgm
-        simp only [Option.getD_some] at hgm
-        have hmem : (w.name, l) ∈ gmTable f names := mem_of_lookup hl
-        unfold gmTable at hmem
-        split at hmem
-        · cases hmem
-        · simp only [List.mem_singleton] at hmem
-          injection hmem with _ hl'
-          rw [hl'] at hgm
-          unfold gmAttr at hgm
-          split at hgm
-          · cases hgm
-          · rename_i g0 hg0
-            simp only [List.mem_singleton] at hgm
-            rw [hgm]
-            right; right; exact ⟨g0, by rw [hg0]; exact List.mem_cons_self, rfl⟩
-          · obtain ⟨g0, hg0, rfl⟩ := List.mem_map.mp hgm
-            right; right; exact ⟨g0, hg0, rfl⟩
+    · exact hgmmeta g hgm
+  · rcases foldl_gmStep_used _ _ _ _ _ r hr with h | ⟨g, hgm, rfl⟩
+    · cases h
+    · exact hgmmeta g hgm
 
 /-- Nothing references the data variable. -/
 theorem field_unreferenced {w : NcVar} (hw : w ∈ (wfFile o f names).vars) :
